@@ -549,8 +549,11 @@ def ode_arrays(draw: Any) -> dict:
 
 # -- building programs -------------------------------------------------------
 
-def _fault_active(fault: dict, state: Any, t: float) -> bool:
+def _fault_active(fault: dict, state: Any, t: float,
+                  control: Any = None) -> bool:
     when = fault["when"]
+    if when == "control":  # equations only: |control| beyond a threshold
+        return max(abs(float(v)) for v in control) > fault["p"]
     if when == "always":
         return True
     if when == "after":
@@ -560,12 +563,13 @@ def _fault_active(fault: dict, state: Any, t: float) -> bool:
     raise ValueError(when)
 
 
-def _apply_fault(fault: dict, state: Any, t: float, out: Any) -> None:
+def _apply_fault(fault: dict, state: Any, t: float, out: Any,
+                 control: Any = None) -> None:
     if fault["when"] == "exp":
         out[fault["index"]] += fault["sign"] * math.exp(
             min(fault["p"] * t, 700.0))
         return
-    if _fault_active(fault, state, t):
+    if _fault_active(fault, state, t, control):
         v = bad_value(fault["value"])
         if fault["index"] < 0:
             out[:] = v
@@ -591,7 +595,7 @@ def build_equations(spec: dict) -> Any:
 
     def faulty(state: Any, t: float, control: Any, out: Any) -> None:
         base(state, t, control, out)
-        _apply_fault(fault, state, t, out)
+        _apply_fault(fault, state, t, out, control)
     return faulty
 
 
@@ -658,10 +662,17 @@ def _build_controller(spec: dict) -> tuple[Any, Any, int]:
 # C11: histories on one objective object
 # ----------------------------------------------------------------------------
 
-def rebuilt_system(name: str, steps: int, time: float) -> Any:
+def _fault_key(fault: Any) -> Any:
+    return None if not fault else tuple(sorted(
+        (k, str(v)) for k, v in fault.items()))
+
+
+def rebuilt_system(name: str, steps: int, time: float,
+                   fault: Any = None) -> Any:
     """The bundled system rebuilt through the public ``System`` constructor
-    with a small training budget (same equations, same training states)."""
-    key = ("sys", name, int(steps), float(time))
+    with a small training budget (same training states; the bundled
+    equations, optionally with a state-dependent fault as in C10)."""
+    key = ("sys", name, int(steps), float(time), _fault_key(fault))
     if key in _CACHE:
         return _CACHE[key]
     from moptipyapps.dynamic_control.system import System
@@ -672,7 +683,10 @@ def rebuilt_system(name: str, steps: int, time: float) -> Any:
                     orig.training_starting_states,
                     int(steps), float(time), int(steps), float(time),
                     (0, ))
-    system.equations = orig.equations  # type: ignore
+    spec = {"kind": "bundled", "name": name}
+    if fault:
+        spec["fault"] = fault
+    system.equations = build_equations(spec)  # type: ignore
     if len(_CACHE) > 400:
         for k in [k for k in _CACHE if k[0] in ("sys", "inst")]:
             del _CACHE[k]
@@ -681,14 +695,24 @@ def rebuilt_system(name: str, steps: int, time: float) -> Any:
 
 
 def build_instance_dc(init: dict) -> Any:
+    """Instance of the rebuilt system and the bundled controller blueprint;
+    the blueprint's function is wrapped by a :class:`WorkCounter` (attribute
+    ``work_counter`` of the returned instance) through the public
+    ``Controller`` constructor."""
     key = ("inst", init["sys"], init["ctrl"], int(init["steps"]),
-           float(init["time"]))
+           float(init["time"]), _fault_key(init.get("fault")))
     if key in _CACHE:
         return _CACHE[key]
+    from moptipyapps.dynamic_control.controller import Controller
     from moptipyapps.dynamic_control.instance import Instance
-    system = rebuilt_system(init["sys"], init["steps"], init["time"])
-    ctrl = bundled_controllers(SYSTEM_DIM[init["sys"]])[init["ctrl"]]
+    system = rebuilt_system(init["sys"], init["steps"], init["time"],
+                            init.get("fault"))
+    orig = bundled_controllers(SYSTEM_DIM[init["sys"]])[init["ctrl"]]
+    counter = WorkCounter()
+    ctrl = Controller(orig.name, orig.state_dims, orig.control_dims,
+                      orig.param_dims, counter.wrap(orig.controller))
     inst = Instance(system, ctrl)
+    inst.work_counter = counter  # type: ignore
     _CACHE[key] = inst
     return inst
 
@@ -700,14 +724,34 @@ def build_objective(init: dict) -> Any:
 
 
 def build_surrogate(spec: dict) -> Any:
-    """Surrogate equations: a linear map of (state, control) plus bias."""
+    """Surrogate equations: a linear map of (state, control) plus bias;
+    optionally NaN where max|s| exceeds ``nan_beyond``."""
     import numpy as np
     w = np.array(spec["W"], dtype=float)
     bias = np.array(spec["bias"], dtype=float)
+    beyond = spec.get("nan_beyond")
 
     def model(state: Any, _t: float, control: Any, out: Any) -> None:
         out[:] = w @ np.concatenate((state, control)) + bias
+        if beyond is not None and max(abs(float(v)) for v in state) > beyond:
+            out[:] = math.nan
     return model
+
+
+def training_norms(name: str) -> list[float]:
+    """max|component| of the bundled training states, sorted."""
+    tr = bundled_system(name).training_starting_states
+    return sorted(float(abs(row).max()) for row in tr)
+
+
+@st.composite
+def _norm_threshold(draw: Any, name: str) -> float:
+    """A threshold below, between or above the training-state norms."""
+    norms = training_norms(name)
+    i = draw(st.integers(0, len(norms)))
+    lo = norms[i - 1] if i > 0 else norms[0] / 4.0
+    hi = norms[i] if i < len(norms) else norms[-1] * 4.0
+    return draw(_f(lo + 0.05 * (hi - lo), hi - 0.05 * (hi - lo)))
 
 
 def objective_inits(catalog: dict) -> Any:
@@ -715,58 +759,90 @@ def objective_inits(catalog: dict) -> Any:
     def inits(draw: Any) -> dict:
         name = draw(st.sampled_from(BUNDLED_SYSTEMS))
         ctrl, n = draw(st.sampled_from(catalog[SYSTEM_DIM[name]]))
-        return {"sys": name, "ctrl": ctrl, "n_params": n,
+        init = {"sys": name, "ctrl": ctrl, "n_params": n,
                 "cls": draw(st.sampled_from(["FigureOfMerit",
                                              "FigureOfMeritLE"])),
-                "smm": draw(st.sampled_from([True, True, True, False])),
+                "smm": draw(st.sampled_from([True] * 5 + [False])),
                 "steps": draw(st.integers(10, 40)),
                 "time": draw(_f(0.5, 5.0))}
+        kind = draw(st.sampled_from([0, 1, 2, 3, 4, 5, 6, 7, 8, 9]))
+        if kind < 2:
+            # the differential is undefined where the control effort (or,
+            # rarely, the state) exceeds a threshold: whether a training
+            # case fails (-> 1e200 evaluations) depends on x
+            init["fault"] = {
+                "when": "control", "index": -1,
+                "p": {"stuart_landau": 0.3, "lorenz": 20.0,
+                      "3oscillators": 1.0}[name] * 10.0 ** draw(
+                          _f(-0.3, 2.0)),
+                "value": draw(st.sampled_from(["nan", "inf", 1e50]))}
+        elif kind < 4:
+            init["fault"] = {
+                "when": "norm", "index": -1, "p": draw(_norm_threshold(name)),
+                "value": draw(st.sampled_from(["nan", "inf", 1e50]))}
+        return init
     return inits()
-
-
-#: blueprints whose output grows polynomially with the state: the corners of
-#: the parameter box make the closed loop extremely stiff or explosive
-POLY_CTRL = ("quadratic", "cubic")
 
 
 @st.composite
 def objective_x(draw: Any, init: dict) -> list[float]:
+    """Mostly tame vectors (|x_i| <= 4), sometimes the full box."""
     n = init["n_params"]
-    kinds = ["rng", "rng", "near_zero", "rng_small", "corner", "unit",
-             "ints"]
-    x = draw(pvec(n, kinds=tuple(kinds)))
-    return x
+    if draw(st.integers(0, 4)) == 0:
+        return draw(pvec(n, kinds=("rng", "corner", "unit", "uniform")))
+    return draw(pvec(n, lo=-4.0, hi=4.0, kinds=(
+        "rng", "rng", "near_zero", "rng_small", "corner", "unit", "ints")))
 
 
 @st.composite
-def surrogate_specs(draw: Any, n: int, cdim: int) -> dict:
-    kind = draw(st.sampled_from(["decay", "random", "random", "zero"]))
+def surrogate_specs(draw: Any, name: str, cdim: int = 1) -> dict:
+    n = SYSTEM_DIM[name]
+    kind = draw(st.sampled_from(["decay", "decay", "random", "zero",
+                                 "nan_beyond"]))
     w = [[0.0] * (n + cdim) for _ in range(n)]
-    if kind == "decay":
+    if kind in ("decay", "nan_beyond"):
         for i in range(n):
             w[i][i] = draw(_f(-2.0, -0.1))
             for j in range(cdim):
                 w[i][n + j] = draw(_f(-1.0, 1.0))
     elif kind == "random":
-        w = [[draw(_f(-2.0, 2.0)) for _ in range(n + cdim)]
+        w = [[draw(_f(-1.0, 1.0)) for _ in range(n + cdim)]
              for _ in range(n)]
     bias = [draw(st.one_of(st.just(0.0), _f(-0.5, 0.5))) for _ in range(n)]
-    return {"W": w, "bias": bias, "kind": kind}
+    spec = {"W": w, "bias": bias, "kind": kind}
+    if kind == "nan_beyond":
+        spec["nan_beyond"] = draw(_norm_threshold(name))
+    return spec
 
 
 def objective_ops(ex: Any) -> Any:
-    """Strategy of the next operation given the live executor."""
+    """Strategy of the next operation given the live executor (the mix
+    depends on the mode the mirror model is in)."""
     init = ex.init
-    n = SYSTEM_DIM[init["sys"]]
     fresh = objective_x(init).map(lambda x: {"op": "evaluate", "x": x})
-    options = [fresh, fresh, fresh,
-               st.just({"op": "initialize"}),
-               surrogate_specs(n, 1).map(
-                   lambda m: {"op": "set_model", "model": m}),
-               st.just({"op": "set_raw"}),
-               st.just({"op": "get_differentials"})]
-    if ex.used:
-        again = st.sampled_from(ex.used).map(
-            lambda x: {"op": "evaluate", "x": list(x), "reuse": True})
-        options.extend([again, again])
-    return st.one_of(*options)
+    model = surrogate_specs(init["sys"]).map(
+        lambda m: {"op": "set_model", "model": m})
+    simple = {k: st.just({"op": k})
+              for k in ("initialize", "set_raw", "get_differentials")}
+    if not init["smm"]:
+        tags = ["fresh"] * 4 + ["again"] * 2 + [
+            "initialize", "set_raw", "set_model", "get_differentials"]
+    elif ex.mode == "raw":
+        tags = ["fresh"] * 3 + ["again"] * 2 + ["set_model"] * 3 + [
+            "get_differentials", "initialize", "set_raw"]
+    else:
+        tags = ["fresh"] * 3 + ["again"] * 3 + ["set_raw"] * 3 + [
+            "initialize", "set_model", "get_differentials"]
+    if not ex.used:
+        tags = [t for t in tags if t != "again"]
+
+    def pick(tag: str) -> Any:
+        if tag == "fresh":
+            return fresh
+        if tag == "again":
+            return st.sampled_from(ex.used).map(
+                lambda x: {"op": "evaluate", "x": list(x), "reuse": True})
+        if tag == "set_model":
+            return model
+        return simple[tag]
+    return st.sampled_from(tags).flatmap(pick)
